@@ -205,6 +205,36 @@ def h05f_pre(ti, p1, p2, two):
     return 0 <= ti < len(TXT_LIKE) and 0 <= p1 < len(UTF8_POOL) and 0 <= p2 < len(UTF8_POOL) and (two or p2 == 0) and (S("two") == two)
 
 
+# ---------------------------------------------------------------- H05g base64 / hex chunking styles
+
+CHUNKED = [("DNSKEY", "key"), ("CERT", "certificate"), ("DHCID", "data"), ("SSHFP", "fingerprint"), ("TLSA", "cert"), ("DS", "digest"),
+           ("OPENPGPKEY", "key"), ("NSEC3PARAM", "salt")]
+
+
+def h05g(ti: int, pick: int, chunk: int, generic: bool) -> bool:
+    """Text written with any base64 / hex chunk size (a style knob documented as lossless) parses back to an equal record, for the
+    ordinary and the generic form."""
+    name, field = CHUNKED[ti]
+    t = dns.rdatatype.from_text(name)
+    with concrete():
+        rd0 = specimen(IN, t, name)
+    data = OPAQUE_POOL[pick]
+    try:
+        rd = rd0.replace(**{field: data})
+    except (ValueError, TypeError, dns.exception.DNSException):
+        return True
+    if generic:
+        rd = rd.to_generic()
+    text = rd.to_text(style=dns.rdata.RdataStyle(base64_chunk_size=chunk, hex_chunk_size=chunk))
+    hit("printed")
+    back = dns.rdata.from_text(IN, t, text)
+    return back.to_wire() == rd.to_wire()
+
+
+def h05g_pre(ti, pick, chunk, generic):
+    return 0 <= ti < len(CHUNKED) and 0 <= pick < len(OPAQUE_POOL) and pick != EMPTY and 0 <= chunk <= 9 and ti == S("ti")
+
+
 # ---------------------------------------------------------------- H05c generic (RFC 3597) form
 
 def h05c(ti: int, pick: int, as_unknown: bool) -> bool:
@@ -336,6 +366,10 @@ HARNESSES = [
                      "dns.rdtypes.txtbase.TXTBase.from_text"],
             bound="6 TXT-like types x 20 pooled character-strings (thorough: pairs of strings) written with txt_is_utf8=True", stubs=["E3b"],
             outside="other strings (str.decode / str.isprintable are C code: a symbolic string would be realized)"),
+    Harness("H05g", h05g, h05g_pre, lambda tier: [{"ti": i, "_timeout": 600, "_path_timeout": 60} for i in range(len(CHUNKED))], kind="finite selection, exhaustive",
+            encodes=["dns.rdata._wordbreak", "dns.rdata._styled_base64ify", "dns.rdata._styled_hexify", "dns.rdata.GenericRdata.to_styled_text", "dns.rdata.from_text"],
+            bound="8 types with a base64 / hex field x 10 pooled data values (1 .. 33 octets) x chunk sizes 0 .. 9 (every residue of the encoded length), ordinary and generic form",
+            stubs=[], outside="larger chunk sizes (C09/H09a uses 16, 32, 40 on zones)"),
     Harness("H05c", h05c, h05c_pre, h05c_shards, kind="finite selection",
             encodes=["dns.rdata.Rdata.to_generic", "dns.rdata.GenericRdata.to_styled_text", "dns.rdata.from_text", "dns.rdata.GenericRdata.from_text"],
             bound="generic form of every type's specimen parsed as the known type; unknown type 65280 with 10 pooled data values", stubs=[], outside="symbolic data (hex conversion realizes)"),
